@@ -484,6 +484,10 @@ def propose(rng: random.Random, pool: list[dict], families: list[str] | None = N
         if _core(d) == "utf8":
             return None
         targets = [t for t in DT_POOL if _core(t) != "utf8" and (impl.is_nullable(t) or not impl.is_nullable(d))]
+        if rng.random() < 0.25:
+            # number / boolean -> text: the text is produced by the ONNX Cast operator in every mode (eager, traced, without
+            # onnxruntime at trace time), so the modes must agree on it
+            return "astype", [x["ref"]], {"dtype": "nutf8" if impl.is_nullable(d) else "utf8"}
         return "astype", [x["ref"]], {"dtype": rng.choice(targets)}
     if fam == "inplace":
         c = rng.random()
